@@ -297,6 +297,23 @@ def check_pages(case, ctx):
                     if ok_flag and raised:
                         ctx.violation('missing-component-reported', f'{K}/save/raises-although-allowed', desc)
                         return
+                if ok_flag:
+                    # a file saved with incomplete lines restores exactly what was saved - also into a layout that still holds older results
+                    blob = p2.save_logits_bytes(missing_line_logits_ok=True)
+                    tgt = make_page(variants)            # the same ids, every line with its full (older) triple
+                    tgt.load_logits(blob)
+                    ctx.executed(2)
+                    for src, dst in zip(p2.lines_iterator(), tgt.lines_iterator()):
+                        same_m = (src.logits is None and dst.logits is None) or (src.logits is not None and dst.logits is not None and same_sparse(dst.logits, src.logits))
+                        same_c = dst.characters == src.characters
+                        same_w = (dst.logit_coords is None and src.logit_coords is None) or \
+                            (dst.logit_coords is not None and src.logit_coords is not None and list(dst.logit_coords) == list(src.logit_coords))
+                        if not (same_m and same_c and same_w):
+                            ctx.violation('restores-identical-matrix', f'{K}/load/incomplete-line-not-restored-as-saved',
+                                          f'{desc}: after loading the file into a layout holding older results, line {dst.id} has logits '
+                                          f'{"None" if dst.logits is None else "present"}, characters {dst.characters}, window {dst.logit_coords}; saved were '
+                                          f'{"None" if src.logits is None else "present"}, {src.characters}, {src.logit_coords}')
+                            return
                 ctx.tag('missing-component-cases')
 
 
@@ -318,7 +335,8 @@ def check_e2e(case, ctx):
         for i, s in enumerate(rows):
             M[i, s] = 6.0 + 0.01 * i
             M[i, (s + 1) % 4] = -1.0 - 0.01 * i
-        reg.lines.append(TextLine(id=f'r1-l{k}', baseline=np.asarray([[10, 30 + 40 * k], [250, 30 + 40 * k]]),
+        # (every second page uses line ids of the form other tools and ALTO-derived files use: 'id_0001')
+        reg.lines.append(TextLine(id=(f'id_{k:04d}' if len(texts[0]) % 2 else f'r1-l{k}'), baseline=np.asarray([[10, 30 + 40 * k], [250, 30 + 40 * k]]),
                                   polygon=np.asarray([[10, 10 + 40 * k], [250, 10 + 40 * k], [250, 40 + 40 * k], [10, 40 + 40 * k]]),
                                   heights=[20, 10], logits=sparse.csc_matrix(M), characters=list(chars), logit_coords=[2, len(rows) - 2]))
     page.regions.append(reg)
@@ -335,6 +353,13 @@ def check_e2e(case, ctx):
         rebuilt.from_pagexml_string(xml)
         rebuilt.load_logits(blob)
         saved_text = [l.transcription for l in rebuilt.lines_iterator()]
+        for lo, lr in zip(orig.lines_iterator(), rebuilt.lines_iterator()):
+            if lr.id != lo.id or lr.logits is None or not same_sparse(lr.logits, lo.logits) or list(lr.characters or []) != list(lo.characters) or \
+                    list(lr.logit_coords or []) != list(lo.logit_coords):
+                ctx.violation('rebuilt-layout-redecodes-identically', f'{ID}/e2e/rebuilt-layout-lacks-the-saved-logits/{name}',
+                              f'lines {texts}, decoder {name}: line {lo.id!r} of the original comes back from PAGE XML + logits file as {lr.id!r} with logits '
+                              f'{"absent" if lr.logits is None else "present"}, characters {lr.characters}, window {lr.logit_coords}')
+                return
         PageDecoder(mk()).process_page(rebuilt)
         alto2 = rebuilt.to_altoxml_string()
         ctx.executed(8)
